@@ -749,6 +749,14 @@ func (x *Exec) run() {
 					continue // a pointer parameter denotes its pointee's final state in postconditions; old(p.f) is the entry value
 				}
 				names[obj.Name()] = v
+				// … also under the name the parameter had when the lock was written
+				for oldName, o := range x.g.renameMap(fi) {
+					if o == obj {
+						if _, clash := names[oldName]; !clash {
+							names[oldName] = v
+						}
+					}
+				}
 			}
 		}
 	}
@@ -1122,6 +1130,28 @@ func (g *Global) declStrings(fi *FuncInfo) []string {
 		out = append(out, o.Name()+"|"+types.TypeString(o.Type(), q))
 	}
 	return out
+}
+
+// oldNames: for every variable the function declares now, the name it had when the lock was written (only when the
+// function still declares the same number of variables with the same types in the same order). Used to resolve contract
+// names that were declared several times in the function (loop counters): by scope, innermost first.
+func (g *Global) oldNames(fi *FuncInfo) map[types.Object]string {
+	rec := g.lockedLocals[fi.Key]
+	cur := g.declList(fi)
+	curS := g.declStrings(fi)
+	if len(rec) == 0 || len(rec) != len(cur) {
+		return nil
+	}
+	m := map[types.Object]string{}
+	for i := range rec {
+		ri := strings.SplitN(rec[i], "|", 2)
+		ci := strings.SplitN(curS[i], "|", 2)
+		if len(ri) != 2 || ri[1] != ci[1] {
+			return nil
+		}
+		m[cur[i]] = ri[0]
+	}
+	return m
 }
 
 // renameMap: names the contract may still use for variables that were merely renamed since the lock was written. Only
